@@ -1,8 +1,6 @@
 /* harnesses for raw.c -- included at the end of the injected TU */
 #include "vg.h"
-uint32_t vg_k;
-int64_t vg_fpos0, vg_fend0, vg_offset0; uint8_t vg_cell0; uint32_t vg_last0; uint64_t vg_nwr0, vg_nip0;
-struct jls_chunk_header_s vg_hdr0;
+#include "raw_ghost_defs.h"
 
 static struct jls_raw_s * vg_mk_raw(void) {
     struct jls_raw_s * r = malloc(sizeof(*r));
@@ -31,7 +29,7 @@ void h_raw_wr_header(void) {
     __CPROVER_assume(h != NULL);
     int32_t rc = jls_raw_wr_header(r, h);
     VG_REACH(wr_header_returns);
-    if (vg_fpos0 < vg_fend0) { VG_REACH(wr_header_in_place); } else { VG_REACH(wr_header_append); }
+    if (r->backend.fend > r->offset + 100) { VG_REACH(wr_header_in_place); } else { VG_REACH(wr_header_append); }
 }
 
 void h_raw_rd_header(void) {
@@ -41,9 +39,9 @@ void h_raw_rd_header(void) {
     if (!with_hdr) { h = NULL; }
     int32_t rc = jls_raw_rd_header(r, h);
     VG_REACH(rd_header_returns);
-    if (rc == 0 && vg_hdr0.tag == JLS_TAG_INVALID) { VG_REACH(rd_header_fresh_ok); }
+    if (rc == 0 && r->backend.fpos == r->offset + 32) { VG_REACH(rd_header_fresh_ok); }
     if (rc == JLS_ERROR_MESSAGE_INTEGRITY) { VG_REACH(rd_header_crc_error); }
-    if (rc == 0 && vg_hdr0.tag != JLS_TAG_INVALID) { VG_REACH(rd_header_cached); }
+    if (rc == 0 && r->backend.fpos != r->offset + 32) { VG_REACH(rd_header_cached); }
 }
 
 void h_raw_rd_payload(void) {
@@ -53,7 +51,28 @@ void h_raw_rd_payload(void) {
     __CPROVER_assume(max == 0 || p != NULL);
     int32_t rc = jls_raw_rd_payload(r, max, p);
     VG_REACH(rd_payload_returns);
-    if (rc == 0 && vg_hdr0.payload_length > 20) { VG_REACH(rd_payload_ok); }
+    if (rc == 0 && max > 40) { VG_REACH(rd_payload_ok); }
     if (rc == JLS_ERROR_TOO_BIG) { VG_REACH(rd_payload_too_big); }
     if (rc == JLS_ERROR_MESSAGE_INTEGRITY) { VG_REACH(rd_payload_crc_error); }
+}
+
+void h_raw_chunk_seek(void) {
+    struct jls_raw_s * r = vg_mk_raw();
+    int64_t off;
+    int32_t rc = jls_raw_chunk_seek(r, off);
+    VG_REACH(chunk_seek_returns);
+    if (rc) { VG_REACH(chunk_seek_refused); }
+}
+
+void h_raw_wr(void) {
+    struct jls_raw_s * r = vg_mk_raw();
+    struct jls_chunk_header_s * h = malloc(sizeof(*h));
+    __CPROVER_assume(h != NULL);
+    uint32_t n = h->payload_length;
+    uint8_t * p = malloc(n);
+    __CPROVER_assume(n == 0 || p != NULL);
+    int32_t rc = jls_raw_wr(r, h, p);
+    VG_REACH(raw_wr_returns);
+    if (n > 9 && r->backend.fend == r->offset) { VG_REACH(raw_wr_append); }
+    if (n == 0) { VG_REACH(raw_wr_no_payload); }
 }
